@@ -6,6 +6,7 @@ import DimodProofs.LpNum
 import DimodProofs.LpDec
 import DimodProofs.LpClosed
 import DimodProofs.LpReader
+import DimodProofs.LpCppLex
 import DimodProofs.LpFamily0
 import DimodProofs.LpFamily1
 import DimodProofs.LpFamily2
@@ -338,6 +339,65 @@ example :
       = .ok ⟨[⟨.str "x", .real, -realMax, realMax⟩, ⟨.str "y", .integer, -intMax, 7⟩],
              ⟨[(.str "x", -2), (.str "y", 1)], [(.str "x", .str "y", -2), (.str "y", .str "y", -1)], -3⟩,
              [⟨.str "c1", ⟨[(.str "x", 1), (.str "y", 1)], [], 0⟩, .ge, 1, false⟩]⟩ := by
+  decide +kernel
+
+/-! ## round 8 — the lexical step of the general round trip through the C++ reader model
+
+The route to `∀ m, LpCpp.loads (Lp.dumps m) = normCqm m` (notes/r7d-r7.md) starts at the characters: these theorems are that
+first step at full generality (every label `_validate_label` accepts, every integral number, any continuation of the line,
+any fuel), proved over the generated tables (`LABEL_VALID_CHARS`, `LABEL_INVALID_FIRST_CHARS`, `LABEL_INVALID_PREFIXES` of
+`dimod/lp.py`; the identifier terminators and the single-character switch of `reader.cpp`).  The later steps
+(`procToks` on the writer's token shapes — whose label half is `valid_labels_form_no_reader_keyword` —, `splitToks`, the
+section parsers, `toCqm`) are still established by kernel evaluation on the family and by the correspondence run only. -/
+
+open LpCpp in
+/-- **every valid label is read by the C++ tokenizer as one identifier with exactly that text**: for every string
+    `_validate_label` accepts (`To`, `e`-less first characters, up to 255 characters, …), followed by the end of the line
+    or by a character that ends an identifier (the writer puts a blank, `:` or a newline there), `readnexttoken` — `strtod`
+    first, then the identifier rule — produces the token `str s` and continues with the rest of the line.  In particular
+    `strtod` converts no prefix of a valid label: this is what the writer's invalid first characters (digits, `.`, `e`, `E`)
+    and invalid prefixes (`inf`, `nan`) are there for. -/
+theorem cpp_lexer_reads_valid_label (s : String) (hs : validLabel (.str s) = true) (rest : List Char) (hr : Stops rest)
+    (fuel : Nat) : lexLine (fuel + 1) (s.toList ++ rest) = (lexLine fuel rest).map (Raw.str s :: ·) :=
+  lexLine_label s hs rest hr fuel
+
+open LpCpp in
+/-- **`strtod` on the digits the writer prints for a natural number**: all of them are consumed (no `0x`, no exponent, no
+    fraction is seen in what follows a stop character) and the value is the binary64 nearest to the number -/
+theorem cpp_strtod_reads_natural (n : Nat) (rest : List Char) (hr : Stops rest) :
+    strtod ((showNat n).toList ++ rest) = .ok (some (roundDouble (n : Rat), (showNat n).toList.length)) := by
+  simp only [showNat, String.toList_ofList]
+  exact strtod_natDigits n rest hr
+
+open LpCpp in
+/-- **an integral coefficient is read by the C++ tokenizer as one constant token with its exact magnitude**: `_abs(bias)`
+    of an integral bias that is a binary64 value (every bias of a real model is) is one `cons` token whose value is
+    `|bias|` — the sign is a token of its own in the writer's layout (`+ 3 x`, `- 3 x`). -/
+theorem cpp_lexer_reads_integral_coefficient (b : Rat) (hb : b.den = 1) (hd : isDouble (absQ b) = true) (rest : List Char)
+    (hr : Stops rest) (fuel : Nat) :
+    lexLine (fuel + 1) ((showAbs b).toList ++ rest) = (lexLine fuel rest).map (Raw.cons (.fin (absQ b)) :: ·) := by
+  have ha : (absQ b).den = 1 := by unfold absQ; split <;> simp [hb]
+  have h0 : 0 ≤ absQ b := by unfold absQ; split <;> grind
+  have hs : showAbs b = showNat (absQ b).num.toNat := by
+    have : (if b < 0 then -b else b) = absQ b := rfl
+    simp only [showAbs, this, ha, if_true]
+  have hn : (((absQ b).num.toNat : Nat) : Rat) = absQ b := natCast_of_den_one _ ha h0
+  rw [hs]
+  simp only [showNat, String.toList_ofList]
+  rw [lexLine_natDigits _ rest hr fuel, hn]
+  simp only [isDouble, decide_eq_true_eq] at hd
+  rw [hd]
+
+/-- the hypotheses are met: the writer's continuations (blank, colon, newline, end of line) are stops -/
+example : LpCpp.Stops [' ', '<', '='] ∧ LpCpp.Stops [':', ' '] ∧ LpCpp.Stops ['\n'] ∧ LpCpp.Stops [] :=
+  ⟨Or.inr ⟨_, _, rfl, by decide +kernel⟩, Or.inr ⟨_, _, rfl, by decide +kernel⟩, Or.inr ⟨_, _, rfl, by decide +kernel⟩, Or.inl rfl⟩
+
+/-- … and the statements compute on a line of a written file (label `To`, a label starting with `Inf` refused: `I.a`) -/
+example :
+    LpCpp.isDouble (absQ (-9007199254740991)) = true ∧ validLabel (.str "Inf.a") = false ∧
+    LpCpp.lexLine 40 " To: + 12 x_1 - 9007199254740991 I.a >= -3".toList =
+      .ok [.str "To", .colon, .plus, .cons (.fin 12), .str "x_1", .minus, .cons (.fin 9007199254740991), .str "I.a",
+           .greater, .equal, .minus, .cons (.fin 3)] := by
   decide +kernel
 
 end C12
